@@ -246,6 +246,12 @@ func c13Ammo(r *R) {
 		conf["continueonerror"] = true
 		coe = true
 	}
+	// continue-on-error together with a limit: skipped lines or not, no more items than the limit are handed out
+	coeLimit := 0
+	if coe && w.Draw(2) == 0 {
+		coeLimit = 1 + w.Draw((max(k, 1)+2)*max(passes, 1))
+		conf["limit"] = coeLimit
+	}
 	// the http providers have the option too (the unchanged tree does not act on it in the streaming path: a malformed
 	// entry then still ends the run with an error, which the statement allows as well)
 	httpCoe := false
@@ -316,7 +322,10 @@ func c13Ammo(r *R) {
 			}
 		}
 	}
-	if format == "grpc/json" && coe && k > 0 && passes > 0 && !failed {
+	if coeLimit > 0 && len(out.All) > coeLimit {
+		r.Fail("continue-on-error/limit-exceeded/"+defect, "limit %d with continue-on-error: %d items were handed out (passes %d)\nfile: %s", coeLimit, len(out.All), passes, clipB(file))
+	}
+	if format == "grpc/json" && coe && coeLimit == 0 && k > 0 && passes > 0 && !failed {
 		// continue-on-error: the malformed lines are skipped (handed out marked invalid), the well-formed ones are
 		// delivered as written, every pass, whatever object of the provider's pool carries them
 		perTag := map[string]int{}
